@@ -426,7 +426,7 @@ pub fn run(r: &mut Report, ctx: &Ctx) {
                         let base = (m * q3 as u64 / 100) as i64;
                         for d in -1i64..=1 {
                             let q = (base + d).clamp(0, q3 as i64) as u32;
-                            let (v, nb) = if (idx + d as u64) % 2 == 0 { (1usize, 128usize) } else { (0usize, 48usize) };
+                            let (v, nb) = if idx.wrapping_add(d as u64) % 2 == 0 { (1usize, 128usize) } else { (0usize, 48usize) };
                             let qn = nb / 4;
                             let mut buckets = [0x0101_0101u32; 256];
                             for i in 0..nb {
